@@ -225,11 +225,24 @@ def normalise(res) -> Outcome:
     import polars as pl
 
     o = Outcome()
+    bogus = {}  # polars: temporal elements that are the int64 minimum WITHOUT being a polars null
+
+    def _bogus(ser):
+        if ser.dtype.is_temporal() and len(ser):
+            phys = ser.to_physical()
+            bad = ((phys == C.INT_MIN) & ser.is_not_null()).fill_null(False).to_list()
+            if any(bad):
+                return bad
+        return None
+
     if isinstance(res, pl.Series):
         o.container = "polars"
+        bogus[0] = _bogus(res)
         res = res.to_pandas()
     elif isinstance(res, pl.DataFrame):
         o.container = "polars"
+        for j, c in enumerate(res.columns):
+            bogus[j] = _bogus(res[c])
         res = res.to_pandas()
     elif isinstance(res, np.ndarray):
         o.container = "numpy"
@@ -242,6 +255,9 @@ def normalise(res) -> Outcome:
         o.names = list(res.index.names)
         o.columns = [res.name]
         v, dt = norm_values(res)
+        if bogus.get(0):
+            # pandas reads the int64 minimum as NaT; in polars it is an ordinary (garbage) instant
+            v = ["INT64-MIN-not-a-polars-null" if b else x for x, b in zip(v, bogus[0])]
         o.values = {str(res.name): v}
         o.dtypes = {str(res.name): dt}
         o.name = res.name
@@ -253,6 +269,8 @@ def normalise(res) -> Outcome:
         o.values, o.dtypes = {}, {}
         for j, c in enumerate(res.columns):
             v, dt = norm_values(res.iloc[:, j])
+            if bogus.get(j):
+                v = ["INT64-MIN-not-a-polars-null" if b else x for x, b in zip(v, bogus[j])]
             o.values[str(c)] = v
             o.dtypes[str(c)] = dt
         o.name = None
